@@ -259,6 +259,172 @@ def rule_b1(ctx, F):
 
 
 # ------------------------------------------------------------------------------------------------
+# B2: stale interior pointers — a pointer into a growable array is not used after the array may
+#     have been reallocated
+# ------------------------------------------------------------------------------------------------
+GROW_FNS = ("_array__grow", "_array__reserve", "_array__splice", "_array__assign")
+
+
+def array_key(e):
+    """Name of the array (struct field or local) whose `contents` the expression refers to."""
+    for n in walk(e):
+        if n.get("k") == "mem" and n["f"] == "contents":
+            b = strip(n["b"])
+            while b.get("k") == "un" and b["op"] in ("&", "*"):
+                b = strip(b["e"])
+            if b.get("k") == "mem":
+                return b["f"]
+            if b.get("k") == "ref":
+                return b["name"]
+    return None
+
+
+def interior_key(e, getters):
+    """If e evaluates to a pointer into a growable array, the array's key."""
+    e = strip(e)
+    k = e.get("k")
+    if k == "bin" and e["op"] == ",":
+        return interior_key(e["r"], getters)
+    if k == "cond":
+        return interior_key(e["t"], getters) or interior_key(e["e"], getters)
+    if k == "un" and e["op"] == "&":
+        x = strip(e["e"])
+        if x.get("k") == "idx":
+            return array_key(x["b"])
+        return None
+    if k == "call" and e.get("fn") in getters:
+        return getters[e["fn"]]
+    return None
+
+
+def grow_summaries(F):
+    direct = {}
+    for fn in F.fn_list:
+        ks = set()
+        for pt, c in fn.calls():
+            if c.get("fn") in GROW_FNS and c.get("a"):
+                key = array_key(c["a"][0]) or (array_key(c["a"][1]) if len(c["a"]) > 1 else None)
+                if key:
+                    ks.add(key)
+        direct[fn.name] = ks
+    grows = {k: set(v) for k, v in direct.items()}
+    changed = True
+    while changed:
+        changed = False
+        for fn in F.fn_list:
+            for c in F.callees(fn):
+                if c in grows and not grows[c] <= grows[fn.name]:
+                    grows[fn.name] |= grows[c]
+                    changed = True
+    return grows
+
+
+def interior_getters(F):
+    g = {}
+    for fn in F.fn_list:
+        if not (fn.ret or "").rstrip().endswith("*"):
+            continue
+        keys = set()
+        for pt, e in fn.points():
+            if e.get("k") == "ret" and e.get("e") is not None:
+                k = interior_key(e["e"], {})
+                if k is None:
+                    r = strip(e["e"])
+                    if r.get("k") == "ref" and r.get("dk") == "local":
+                        d = fn.single_def(r["id"])
+                        k = interior_key(d, {}) if d is not None else None
+                if k:
+                    keys.add(k)
+        if len(keys) == 1:
+            g[fn.name] = keys.pop()
+    return g
+
+
+class StaleMonitor(Monitor):
+    """m: 0 = pointer not (re)defined yet, 1 = live, 2 = the array may have been reallocated."""
+
+    def __init__(self, fn, vid, key, grows, defs_pts, facts=None):
+        self.fn, self.vid, self.key, self.grows, self.defs = fn, vid, key, grows, defs_pts
+        self.facts = facts
+
+    def writes_back(self, callee, argi):
+        """Does `callee` store through its parameter #argi (`*param = …`)?"""
+        g = self.facts.fn(callee) if self.facts else None
+        if g is None or argi >= len(g.params):
+            return False
+        pid = g.params[argi]["id"]
+        for pt, e in g.points():
+            for n in own_walk(e):
+                if n.get("k") == "assign":
+                    l = strip(n["l"])
+                    if l.get("k") == "un" and l["op"] == "*" and strip(l["e"]).get("k") == "ref" and strip(l["e"])["id"] == pid:
+                        return True
+        return False
+
+    def elem(self, m, pt, e, s):
+        used = False
+        redefined = pt in self.defs
+        for n in own_walk(e):
+            k = n.get("k")
+            if k == "ref" and n.get("id") == self.vid:
+                used = True
+            if m == 1 and k == "call":
+                nm = callee_name(n)
+                if nm in GROW_FNS and n.get("a") and (array_key(n["a"][0]) == self.key):
+                    m = 2
+                elif nm in self.grows and self.key in self.grows[nm] and nm not in GROW_FNS:
+                    # idiom: the callee is handed `&p` and stores the re-fetched pointer through it
+                    refreshed = False
+                    for i, a in enumerate(n.get("a", [])):
+                        a = strip(a)
+                        if a.get("k") == "un" and a["op"] == "&" and strip(a["e"]).get("k") == "ref" and strip(a["e"])["id"] == self.vid and self.writes_back(nm, i):
+                            refreshed = True
+                    m = 1 if refreshed else 2
+        if redefined:
+            return 1
+        if used and m == 2:
+            return Viol("pointer into `%s` is used after a call that may reallocate the array" % self.key, pt)
+        return m
+
+
+def rule_b2(ctx, F):
+    grows = grow_summaries(F)
+    getters = interior_getters(F)
+    ctx.analysed["interior_pointer_getters"] = sorted(getters)
+    n = 0
+    for fn in F.fn_list:
+        if not fn.file.startswith("lib/src") or fn.name in GROW_FNS:
+            continue
+        fn.defs(0)
+        for vid, nm in list(fn._names.items()):
+            ds = fn.defs(vid)
+            keys = {interior_key(d, getters) for d in ds if isinstance(d, dict) and d.get("k") not in ("uninit", "param")}
+            keys.discard(None)
+            if len(keys) != 1:
+                continue
+            key = keys.pop()
+            if not any(key in grows.get(c, ()) for c in F.callees(fn)) and not any(c.get("fn") in GROW_FNS and c.get("a") and array_key(c["a"][0]) == key for _, c in fn.calls()):
+                continue      # nothing in this function can grow that array
+            n += 1
+            dpts = set()
+            for pt, e in fn.points():
+                for x in own_walk(e):
+                    if (x.get("k") == "decl" and x.get("id") == vid and x.get("init") is not None) or \
+                       (x.get("k") == "assign" and strip(x["l"]).get("k") == "ref" and strip(x["l"])["id"] == vid):
+                        dpts.add(pt)
+            s = Search(fn, StaleMonitor(fn, vid, key, grows, dpts, F), track=False)
+            v = s.run(0)
+            kkey = "%s:%s->%s" % (fn.name, nm, key)
+            if v is None:
+                ctx.ok("B2", kkey, "`%s` (pointer into `%s`) is never used after a call that may grow `%s` without being re-fetched" % (nm, key, key),
+                       sample={"function": fn.name, "pointer": nm, "array": key} if n <= 4 else None)
+            else:
+                ctx.bad("B2", kkey, "%s: `%s` points into the growable array `%s` and is used at %s after a call that may reallocate it (use-after-free when the push hits the capacity)" % (
+                    fn.name, nm, key, fn.loc(v.pt)), {"function": fn.name, "site": fn.loc(v.pt), "path": s.render_path(v.path)[-6:]})
+    ctx.floor("interior pointers that live across a possible reallocation", n, 5)
+
+
+# ------------------------------------------------------------------------------------------------
 # W1: allocator discipline
 # ------------------------------------------------------------------------------------------------
 LIBC_ALLOC = {"malloc", "calloc", "realloc", "free", "strdup", "strndup", "aligned_alloc", "posix_memalign", "reallocarray"}
@@ -373,6 +539,7 @@ def run(ctx):
         F = ctx.extract.cfacts(cfg)
         ctx.analysed["c_functions_" + cfg] = len(F.fn_list)
         rule_b1(ctx, F)
+        rule_b2(ctx, F)
         rule_w1(ctx, F)
         rule_p1(ctx, F)
     ctx.assumptions = ["an external scanner's serialize() writes at most TREE_SITTER_SERIALIZATION_BUFFER_SIZE bytes into the buffer it is given (documented contract; foreign code)",
